@@ -16,6 +16,10 @@ from . import strings as S
 from .kernel import BOOL, INT, NULLT, REAL, STR, Cell, Ctx, Rel, SortKey, Unsupported
 
 
+class ArtefactError(Exception):
+    """the compiled plan is ill-formed: the engine rejects it for every input"""
+
+
 class StructVec:
     """column of structs: list of field columns"""
 
@@ -212,7 +216,14 @@ class PolarsSem:
         out = rels[0]
         for r in rels[1:]:
             if r.names != out.names:
-                raise Unsupported("union column mismatch (Polars raises)")
+                raise ArtefactError("union inputs have different columns (Polars raises InvalidOperationError)")
+            for nme in out.names:
+                ta = out.data[nme][0].ty if out.data[nme] else None
+                tb = r.data[nme][0].ty if r.data[nme] else None
+                if ta != tb:
+                    raise ArtefactError(
+                        f"union inputs have different schema for column {nme!r}: {ta} vs {tb} (Polars raises InvalidOperationError for every input)"
+                    )
             out, _ = K.rel_concat(out, r)
         if not b["args"].get("maintain_order", True):
             ok, cons = K.unspecified_order(out.n)
